@@ -249,4 +249,14 @@ example : changeOfRun (deltaEq 2) none [5, 6, 8, 8] = [true, false, true, false]
 example : (loopRun (F := Nat) id 3 1 0 4).map (fun s => (s.passes, s.tests, s.counter)) = some (3, 4, 3) := by decide
 example : everyN 3 9 = .ok true ∧ everyN 3 10 = .ok false := by decide
 
+example : (loopRun (F := Nat) id 7 2 0 8).map (fun s => (s.passes, s.tests, s.counter)) = some (4, 5, 8) := by decide
+example : (leaves (.and (.cons (.leaf 0 0) (.cons (.not (.leaf 1 0)) .nil)))).Nodup := by decide
+example : optimumReached (1 : Int) (some 3) 2 = true ∧ optimumReached (1 : Int) (some 4) 2 = false ∧
+    optimumReached (1 : Int) none 2 = false := by decide
+example : (changeOfRun (deltaEq 2) none [5, 6, 8, 8, 5])[3]? = some false ∧
+    lastReported [5, 6, 8] [true, false, true] = some 8 := by decide
+example : bernoulliNew (Objective.ofBits 0x3fe0000000000000) = .thr (2 ^ 63) := by decide +kernel
+example : (eval (fun o => if o = 1 then .err else .val true)
+    (.and (.cons (.leaf 0 0) (.cons (.leaf 1 1) (.cons (.leaf 2 2) .nil)))) []) = (.err, [0, 1]) := by decide
+
 end MahfModel.Props.C10
